@@ -452,7 +452,7 @@ Section Dispatch.
     intros U C. unfold leaf, field_spec.
     assert (EQ: forall c', carries cl s c' t -> c' = c) by (intros c' C'; apply U; assumption).
     destruct (acc (nth c cl dummy_cls) present) eqn:V;
-      (split; [|split; [|split; [|split; [|split; [|split; [|split; [|split]]]]]]]);
+      (split; [|split; [|split; [|split; [|split; [|split; [|split; [|split; [|split]]]]]]]]);
       try discriminate;
       try (intros c'; split; [intros E; first [discriminate | injection E as <-; split; [exact C | exact V]]
                               | intros [C' V']; first [rewrite (EQ _ C') in V'; congruence | f_equal; symmetry; apply EQ; exact C']]);
@@ -462,12 +462,13 @@ Section Dispatch.
 
   Lemma field_spec_none cl s t present : (forall c, ~ carries cl s c t) -> field_spec acc cl s t present ONotFound.
   Proof.
-    intros NO. unfold field_spec. split; [|split; [|split; [|split; [|split; [|split; [|split; [|split]]]]]]].
+    intros NO. unfold field_spec. split; [|split; [|split; [|split; [|split; [|split; [|split; [|split; [|split]]]]]]]].
     - intros c. split; [discriminate|]. intros [C _]. exfalso. exact (NO c C).
     - intros c. split; [discriminate|]. intros [C _]. exfalso. exact (NO c C).
     - split; [intros _; exact NO | reflexivity].
     - discriminate.
     - discriminate.
+    - intros c. split; [discriminate|]. intros [C _]. exfalso. exact (NO c C).
     - intros c. split; [discriminate|]. intros [C _]. exfalso. exact (NO c C).
     - intros cs E. discriminate.
     - discriminate.
@@ -660,8 +661,8 @@ End Dispatch.
 Lemma field_spec_functional acc cl s t present o1 o2 :
   field_spec acc cl s t present o1 -> field_spec acc cl s t present o2 -> o1 = o2.
 Proof.
-  intros [I1 [R1 [N1 [M1 [B1 [K1 [Y1 [D1 X1]]]]]]]] [I2 [R2 [N2 [M2 [B2 [K2 [Y2 [D2 X2]]]]]]]].
-  destruct o1 as [c| | | |c|c|cs| |].
+  intros [I1 [R1 [N1 [M1 [B1 [K1 [A1 [Y1 [D1 X1]]]]]]]]] [I2 [R2 [N2 [M2 [B2 [K2 [A2 [Y2 [D2 X2]]]]]]]]].
+  destruct o1 as [c| | | |c|c|cs| | |c].
   - symmetry. apply I2. apply I1. reflexivity.
   - exfalso. apply M1. reflexivity.
   - symmetry. apply N2. apply N1. reflexivity.
@@ -671,6 +672,7 @@ Proof.
   - exfalso. exact (Y1 cs eq_refl).
   - exfalso. apply D1. reflexivity.
   - exfalso. apply X1. reflexivity.
+  - symmetry. apply A2. apply A1. reflexivity.
 Qed.
 
 (* same classes, same site settings, same tag, same other fields => same answer, whatever was decoded or created before *)
